@@ -44,8 +44,13 @@ def _configs(tier):
                         j += 1
                         ma = 14 if ctrl.startswith("I") else 10
                         plan.append((lay, prof, ctrl, clip, dt0, ma))
-    for lay, prof, ctrl, clip, dt0, ma in plan:
-        cfgs.append(l0.make_config(lay, prof, ctrl, clip, dt0, max_att=ma))
+    for j, (lay, prof, ctrl, clip, dt0, ma) in enumerate(plan):
+        # every other configuration offers error powers far below one, so that the LOWER factor clip is active
+        # (safety * 1/8 < factor_min for all controllers except I_1_2), the others keep the milder rejections
+        eprej = {F(1, 8), F(3, 4)} if j % 2 == 0 else None
+        cfgs.append(l0.make_config(lay, prof, ctrl, clip, dt0, max_att=ma, eprej=eprej))
+        if eprej:
+            cfgs[-1]["_name"] += "/eprej=1/8"
     return cfgs
 
 
